@@ -459,7 +459,7 @@ class ZorgFileCompiler(ZorgFileListener):
             self._s.note_props[key] = value
 
     def _add_tag(self, tag_name: TagName, tag_value: str) -> None:
-        if all(ch.isdigit() for ch in tag_value):
+        if tag_name != "links" and all(ch.isdigit() for ch in tag_value):
             _LOGGER.debug(
                 "Tag identifiers cannot contain only digits.",
                 tag_name=tag_name,
